@@ -703,3 +703,16 @@ Proof.
   - rewrite Hdb'. symmetry. clear - Hfr.
     induction Hfr as [|x y lx ly (_ & _ & _ & He) _ IH]; cbn; [reflexivity|]. rewrite He, IH. reflexivity.
 Qed.
+
+(* an accepted consist step with limit checking on is within the published consist limits *)
+Theorem consist_accepted_within (c c' : ConsistR) req dt on :
+  cn_assert_limits c = true -> consist_solve c req dt on = Ok c' ->
+  req <= cs_pwr_out_max (cn_state c) /\ - req <= cs_pwr_dyn_brake_max (cn_state c) /\
+  cs_pwr_out_max (cn_state c') = cs_pwr_out_max (cn_state c) /\
+  cs_pwr_regen_max (cn_state c') = cs_pwr_regen_max (cn_state c).
+Proof.
+  intros Hal H. unfold consist_solve in H. rewrite Hal in H. cbn [negb orb] in H.
+  ens H. ens H. numR. apply Rleb_true in E, E0.
+  apply bind_ok in H. destruct H as (shares & Hsh & H). ens H.
+  apply bind_ok in H. destruct H as (ls' & Hsol & H). inversion H; subst c'; clear H. cbn. auto.
+Qed.
